@@ -2911,6 +2911,8 @@ def r13(ctx, g: Grammar):
                 for c in ast.walk(_inl(f, s_.test)):
                     if isinstance(c, ast.Compare) and len(c.ops) == 1 and isinstance(c.ops[0], (ast.Eq, ast.In)):
                         l, rr = c.left, c.comparators[0]
+                        if isinstance(c.ops[0], ast.Eq) and not isinstance(l, ast.Subscript):
+                            l, rr = rr, l  # `"#" == line[0]`
                         if isinstance(l, ast.Subscript) and _c(l.slice) == 0:
                             vals = [_c(rr)] if isinstance(c.ops[0], ast.Eq) else [_c(x) for x in getattr(rr, "elts", [])]
                             if kws[0] in vals:
